@@ -31,7 +31,11 @@ static int sem_equal(const jv *v, const cJSON *t)
     if (!t) return 0;
     switch (k[0]) {
         case 'n': return kc == cJSON_NULL; case 't': return kc == cJSON_True; case 'f': return kc == cJSON_False;
-        case '#': { double e = num_of_id(jv_int(jv_at(v, 1))); return kc == cJSON_Number && memcmp(&e, &t->valuedouble, 8) == 0; }
+        case '#': { double e = num_of_id(jv_int(jv_at(v, 1))), d = t->valuedouble;      /* NumEq of the catalogue: |a-b| <= max(|a|,|b|) * DBL_EPSILON (exact in double arithmetic for neighbours) */
+                    if (kc != cJSON_Number) return 0;
+                    if (memcmp(&e, &d, 8) == 0) return 1;
+                    if (isnan(e) || isnan(d) || isinf(e) || isinf(d)) return 0;
+                    return fabs(e - d) <= (fabs(e) > fabs(d) ? fabs(e) : fabs(d)) * 2.220446049250313e-16; }
         case 's': case 'r': { char *s = cstr(jv_at(v, 1)); return kc == (k[0] == 's' ? cJSON_String : cJSON_Raw) && t->valuestring && !strcmp(s, t->valuestring); }
         case 'a': { const jv *ms = jv_at(v, 1); const cJSON *c = t->child; size_t i; if (kc != cJSON_Array) return 0;
                     for (i = 0; i < ms->n; i++, c = c->next) if (!c || !sem_equal(ms->e[i], c)) return 0; return c == NULL; }
@@ -301,7 +305,16 @@ static int obj_depth(const cJSON *t) { const cJSON *c; int d = 0, x; for (c = t-
 static void do_dup(const jv *v)
 {
     cJSON *src = vb_build(jv_at(v, 1)), *copy, *shallow; char why[300] = ""; uint64_t h = vb_hash(src, 0); blk *b; long bad;
-    al_window(0); copy = cJSON_Duplicate(src, 1);
+    int refuse = (v->n >= 3) ? (int)jv_int(jv_at(v, 2)) : 0; long live0 = al_live;
+    al_window(0); copy = cJSON_Duplicate(src, vb_truthy(1, (unsigned long)VD.cases));
+    if (refuse) {      /* some node lies deeper than CJSON_CIRCULAR_LIMIT: refused, nothing kept, source untouched (whatever child the deep branch hangs off) */
+        if (copy) { viol("C11", "cJSON_Duplicate copied a structure nested deeper than CJSON_CIRCULAR_LIMIT instead of refusing it"); cJSON_Delete(copy); }
+        else if (al_live != live0) viol("C11 C07", "the refused duplicate of an over-deep structure leaves %ld block(s) allocated", al_live - live0);
+        if (vb_hash(src, 0) != h) viol("C11", "the refused duplication modified the source");
+        cJSON_Delete(src);
+        if (al_live != 0 || al_bad_free) viol("C11 C07", "%ld block(s) remain after deleting the over-deep source", al_live);
+        return;
+    }
     if (!copy) { viol("C11", "cJSON_Duplicate returned NULL for a tree within the nesting limit"); cJSON_Delete(src); return; }
     if (!vb_equal(jv_at(v, 1), copy, why, sizeof(why), 0)) viol("C11", "the duplicate differs from the source: %s", why);
     else if (!vb_wellformed(copy, why, sizeof(why), 0)) viol("C11", "the duplicate is not well-formed: %s", why);
